@@ -661,7 +661,7 @@ def load_corpus():
 
 
 def zero_limit(kind, q):
-    """a limit of the request is zero (+0.0 or -0.0): both generators must fail (return 0), fix C14-1"""
+    """a limit of the request is zero (+0.0 or -0.0): both generators must fail (return 0), /repo b8b7c64"""
     return q[0] == 0 if kind == "trap" else (q[0] == 0 or q[1] == 0 or q[2] == 0)
 
 
@@ -715,7 +715,7 @@ def run_batch(ctx, cbin, r, n, corpus, st, bi):
             passes[pk] = passes.get(pk, 0) + 1
         if c_gen[i] != m_gen[i][:nf]:
             if zero_limit(k, q):
-                # the model is the tree WITH proposed_fixes/C14-1.diff (zero limit => return 0); the unpatched tree goes on
+                # the model has the zero-limit guards of /repo b8b7c64 (return 0); a tree without them goes on planning
                 ret = fcorr.fval(c_gen[i][0])
                 st["zero_limit_diff"] += 1
                 if ret != 0 and k not in st["zero_reported"]:
@@ -726,7 +726,7 @@ def run_batch(ctx, cbin, r, n, corpus, st, bi):
                                "a_traj%s_gen with a zero limit (%s) returned %r instead of 0 (no motion is possible); context %r"
                                % (k, ", ".join("%s=%r" % nv for nv in zip(names, q)), ret, vals[1:]),
                                {"function": "a_traj%s_gen" % k, "request": dict(zip(names, [repr(v) for v in q])),
-                                "harness_line": g_lines[i], "fix": "proposed_fixes/C14-1.diff",
+                                "harness_line": g_lines[i], "fix": "proposed_fixes/C14-1.diff (= /repo b8b7c64)",
                                 "how": "echo '<harness_line>' | build/C14/drv   (first word = return value as a bit pattern)"})
                 continue    # a failure (return 0) with different left-over context fields is not a difference the property sees
             st["nd"] += 1
@@ -792,9 +792,9 @@ def run(ctx):
     ctx.assumptions += ["floating-point rounding is not proved: the WF residuals of every C context are measured with relative "
                         "tolerance %g" % TOL,
                         "C built with gcc -O2 -ffp-contract=off: binary64 operation by operation; sqrt correctly rounded",
-                        "the model is /repo with proposed_fixes/C14-1.diff (zero limits => the generators return 0); requests with "
-                        "a zero limit on which the tree under test does not return 0 are reported under the keys "
-                        "a_trajtrap_gen/zero-limit and a_trajbell_gen/zero-limit"]
+                        "zero limits: the model has the guards of /repo commit b8b7c64 (generators return 0); a tree under test "
+                        "that does not return 0 on a zero-limit request is reported under the keys a_trajtrap_gen/zero-limit and "
+                        "a_trajbell_gen/zero-limit; when both sides return 0 the left-over context fields are not compared"]
     cbin = ctx.cc("drv", [H / "drv.c"], repo_srcs=["trajtrap.c", "trajbell.c"], mode="num")
     ok, outs, failed = ctx.coq_build(["C14/TrapDefs.v", "C14/BellDefs.v", "Common/FloatOps.v"])
     if not ok:
